@@ -1775,6 +1775,8 @@ class Engine(object):
         c.implicit = 'assume'
         if getattr(ctx, 'loop_entry_state', None) is not None:
             c.loop_entry_state = ctx.loop_entry_state       # entry(e) / newer(x) stay usable inside quantifier bodies
+        if getattr(ctx, 'call_exit_cache', None) is not None:
+            c.call_exit_cache = ctx.call_exit_cache         # at_exit / has_exit inside an assumed postcondition
         return c
 
     def spec_eval(self, expr, st, ctx):
